@@ -200,6 +200,9 @@ fn check_impl(v: &mut Verdict, imp: Impl, case: &Case, ex: &[Expect], end: &RefS
         ),
         _ => {}
     }
+    v.class_if(obs.out_bytes > 0, "commands-written-by-handle");
+    v.class_if(obs.undelivered > 0, "input-closed-by-downlink");
+    v.class_if(obs.split_frames > 0, "frame-split");
     let groups = group(&obs.trace, ops.len());
     if !groups[ops.len()].is_empty() {
         v.fail(
@@ -328,13 +331,7 @@ fn check_legal(case: &Case) -> Verdict {
         return v;
     }
     classes(&mut v, case, &ex);
-    if std::env::var("VERIF_DUMP").is_ok() {
-        eprintln!("running client");
-    }
     let c = check_impl(&mut v, Impl::Client, case, &ex, &end);
-    if std::env::var("VERIF_DUMP").is_ok() {
-        eprintln!("running hosted");
-    }
     let h = check_impl(&mut v, Impl::Hosted, case, &ex, &end);
     // differential: where both implementations satisfy the (lenient) reference they must agree exactly
     let mut differs = false;
@@ -552,7 +549,7 @@ fn anyorder(kind: Kind, raws: &[Raw]) -> Vec<DOp> {
 
 fn arb_case(kind: Kind, max_ops: usize, legal: bool) -> impl Strategy<Value = Case> {
     (
-        (any::<bool>(), any::<bool>(), any::<u64>()),
+        (any::<bool>(), any::<bool>(), any::<u64>(), any::<bool>()),
         // small budgets starve the agent task (every idle byte-channel poll costs one unit): not C08's subject
         prop_oneof![Just(8usize), Just(16), Just(64)],
         // large enough for all frames of a case: the harness never splits a frame (see drive.rs)
